@@ -1,4 +1,6 @@
 import Peppi.Props.C07
+#print axioms Peppi.Props.C07.C07_any
+#print axioms Peppi.Props.C07.C07_any_skip
 #print axioms Peppi.Props.C07.C07_slp_general
 #print axioms Peppi.Props.C07.C07_slp_A
 #print axioms Peppi.Props.C07.C07_slp_B
